@@ -339,6 +339,7 @@ Section Conf.
       let n := t_name d in
       if String.eqb n "kmip.RequestBatchItem" then conf_request_item st d tag fs
       else if String.eqb n "kmip.Credential" then conf_credential st d tag fs
+      else if String.eqb n "kmip.KeyBlock" then conf_key_block st d tag fs
       else None.
   End ConfCustoms.
 
